@@ -34,5 +34,39 @@ def wfSim (cfg : Cfg) (p : Sid) : Bool :=
 /-- all hypotheses of the scheduler theorems -/
 def wfB (cfg : Cfg) : Bool := cfg.rt.isNone && (List.range cfg.n).all (fun p => cfg.wfSim p)
 
+/-! ### the further hypotheses of the liveness theorems (`WFShape`, `Flat` in MosaikProofs) -/
+
+/-- delays have the length of the target's times (`WFShape`) -/
+def shapeSim (cfg : Cfg) (p : Sid) : Bool :=
+  let c := cfg.sim p
+  c.triggers.all (fun tr => tr.2.2.tiers.length == (cfg.sim tr.2.1).depth) &&
+  c.trigAnc.all (fun ad => ad.2.tiers.length == c.depth) &&
+  c.next0.all (fun t => t.length == c.depth)
+
+def shapeB (cfg : Cfg) : Bool := (List.range cfg.n).all (fun p => cfg.shapeSim p)
+
+/-- no groups, tables in range, zero adapt intervals, `rk` increasing along zero-delay connections (`Flat`) -/
+def flatSim (cfg : Cfg) (rk : List Nat) (p : Sid) : Bool :=
+  let c := cfg.sim p
+  c.depth == 1 &&
+  c.inputDelays.all (fun qd => decide (qd.1 < cfg.n) && qd.2.cutoff == 1 && qd.2.tiers.length == 1 &&
+    (tier qd.2.tiers 0 != 0 || decide (rk.getD qd.1 0 < rk.getD p 0))) &&
+  c.trigAnc.all (fun ad => ad.2.cutoff == 1 && ad.2.tiers.length == 1 &&
+    (tier ad.2.tiers 0 != 0 || decide (rk.getD ad.1 0 < rk.getD p 0))) &&
+  c.succs.all (fun sd => decide (sd.1 < cfg.n) && sd.2.cutoff == 1 && sd.2.tiers == [0]) &&
+  c.succsWait.all (fun sd => decide (sd.1 < cfg.n) && sd.2.cutoff == 1 && sd.2.tiers == [0])
+
+def flatB (cfg : Cfg) (rk : List Nat) : Bool := (List.range cfg.n).all (fun p => cfg.flatSim rk p)
+
+/-- candidate ranking: length of the longest chain of zero-delay connections ending in a simulator
+(`n` rounds of relaxation; correct whenever the zero-delay connections are acyclic) -/
+def zeroRank (cfg : Cfg) : List Nat :=
+  (List.range cfg.n).foldl (fun (rk : List Nat) _ =>
+    (List.range cfg.n).map (fun p =>
+      let c := cfg.sim p
+      let zs := (c.inputDelays.filter (fun qd => tier qd.2.tiers 0 == 0)).map (·.1) ++
+                (c.trigAnc.filter (fun ad => tier ad.2.tiers 0 == 0)).map (·.1)
+      zs.foldl (fun m q => max m (rk.getD q 0 + 1)) 0)) (List.replicate cfg.n 0)
+
 end Cfg
 end Mosaik
